@@ -141,4 +141,26 @@ GcOk(t, step, g) ==
         ELSE /\ g \in 0..Scale
              /\ g * n - GcCount(s) * Scale <= n
              /\ GcCount(s) * Scale - g * n <= n
+
+\* ---- huge sequences: `reps` repetitions of a short unit (never written out)
+RECURSIVE Repeat(_, _)
+Repeat(u, r) == IF r = 0 THEN << >> ELSE u \o Repeat(u, r - 1)
+\* number of sampled symbols / of sampled G/C symbols of Repeat(unit, reps), in closed form:
+\* three units have a length divisible by 3, so sampling every third symbol restarts there
+RepSampled(unit, reps, step) == (reps * Len(unit) + step - 1) \div step
+RepGcCount(unit, reps, step) ==
+    IF step = 1 THEN reps * GcCount(unit)
+    ELSE (reps \div 3) * GcCount(Sampled(Repeat(unit, 3), 3)) + GcCount(Sampled(Repeat(unit, reps % 3), 3))
+\* floor(c * 10^6 / n) for 0 <= c <= n by long division (no product above 10 * n: TLC integers are 32 bit)
+RECURSIVE LongDiv(_, _, _, _)
+LongDiv(rem, n, digits, acc) ==
+    IF digits = 0 THEN acc ELSE LongDiv((rem * 10) % n, n, digits - 1, acc * 10 + (rem * 10) \div n)
+FixedFloor(c, n) == IF c >= n THEN Scale ELSE LongDiv(c, n, 6, 0)
+\* acceptance on the 10^-6 grid: the reported value rounds the exact fraction up to f32 error
+GcRepOk(unit, reps, step, g) ==
+    LET n == RepSampled(unit, reps, step)
+        c == RepGcCount(unit, reps, step)
+    IN  IF n = 0 THEN TRUE
+        ELSE /\ g \in 0..Scale
+             /\ g >= FixedFloor(c, n) - 1 /\ g <= FixedFloor(c, n) + 2
 =============================================================================
